@@ -237,6 +237,8 @@ def run(prog, ctx):
     res.rule("C13.decided", decided, 78, "variants decided")
     res.functions_analysed = sum(v["read_sites"] for v in res.extra["families"].values())
     res.entry_points = ["%s::%s" % specfmt.FAMILIES[f]["reader"] for f in sorted(specfmt.IMAGES)]
+    # an updatable Hll4 image re-inserts its aux pairs one by one: the aux table's insert / find / grow probe geometry (C02.Q, Q2)
+    C.import_rules(res, prog, ctx, "C13.Q", "C02", ("C02.Q", "C02.Q2"), "aux table rebuilt from an image", 2)
     res.explanation = ("reader I/O models extracted from MIR, simulated on every image variant of the published formats with branches evaluated on the "
                        "variant's preamble values")
     res.not_decided = "equality of decoded and encoded state; HLL4 updatable aux-table semantics"
